@@ -19,3 +19,4 @@ def check(rep, tier):
     from contracts import rules_shape as _rs
     rep.run(_rs.run_linalg, rep, tier)      # E3 over autograd/numpy/linalg.py: symbolic matrix and batch sizes
     rep.run(_rs.run_fft, rep, tier)         # E3 over autograd/numpy/fft.py: symbolic array sizes and transform lengths
+    rep.run(_rs.run_scipy_special, rep, tier)   # E3 over autograd/scipy/special.py: broadcasting argument patterns, logsumexp axis forms
